@@ -170,6 +170,21 @@ func (s *Sched) liveTimers() []*Timer {
 		if len(t.ch.buf) >= t.ch.cap {
 			continue
 		}
+		// firing is only observable if some thread is waiting on the timer's channel
+		waited := false
+		for _, th := range s.threads {
+			if th.done || th.handoff != nil {
+				continue
+			}
+			for _, c := range th.waitCases {
+				if c.ch == t.ch && !c.send {
+					waited = true
+				}
+			}
+		}
+		if !waited {
+			continue
+		}
 		out = append(out, t)
 	}
 	return out
@@ -191,36 +206,44 @@ func (s *Sched) pick(cur *Thread) *Thread {
 		if policy == "any" || (policy != "never" && len(en) == 0) {
 			timers = s.liveTimers()
 		}
-		if policy == "any" && len(timers) > 0 && len(en) > 0 {
-			// bound timer firings by the preemption budget as well
-			if p.e.cfg.Preempt >= 0 && s.preempts >= p.e.cfg.Preempt {
-				timers = nil
-			}
+		if len(en) == 0 && len(timers) > 0 && !(p.e.cfg.Preempt >= 0 && s.preempts >= p.e.cfg.Preempt) {
+			// nothing else can run: firing a timer is forced, choosing which one is free
+		}
+		if len(en) == 0 && len(timers) > 1 && p.e.cfg.Preempt >= 0 && s.preempts >= p.e.cfg.Preempt {
+			timers = timers[:1]
 		}
 		if len(en) == 0 && len(timers) == 0 {
 			return nil
 		}
 		curEnabled := len(en) > 0 && en[0] == cur
 		n := len(en) + len(timers)
+		// Delay-bounded scheduling: the default schedule keeps the current thread running, otherwise takes the
+		// first enabled thread (lowest id); each deviation from it (a "delay") is a recorded nondeterministic
+		// choice, and at most cfg.Preempt deviations are explored per path (-1 = unbounded).
 		var c int
-		if curEnabled && p.e.cfg.Preempt >= 0 && s.preempts >= p.e.cfg.Preempt {
+		if p.e.cfg.Preempt >= 0 && s.preempts >= p.e.cfg.Preempt {
 			c = 0
 		} else {
 			s.points++
-			c = p.chooseN(n)
+			cat := "sched"
+			if p.e.verbose {
+				cat = "sched:"
+				for _, t := range en {
+					cat += t.name + ","
+				}
+				cat += fmt.Sprintf("timers=%d,cur=%v", len(timers), curEnabled)
+			}
+			c = p.chooseNCat(n, cat)
+			if c > 0 {
+				s.preempts++
+			}
 		}
 		if c >= len(en) {
 			t := timers[c-len(en)]
 			s.fire(t)
-			if len(en) > 0 {
-				s.preempts++
-			}
 			continue
 		}
 		next := en[c]
-		if curEnabled && next != cur {
-			s.preempts++
-		}
 		p.schedule = append(p.schedule, next.id)
 		return next
 	}
@@ -408,7 +431,7 @@ func (s *Sched) selectOp(th *Thread, cases []selCase, hasDefault bool, zeros []V
 	}
 	k := 0
 	if len(ready) > 1 {
-		k = s.p.chooseN(len(ready))
+		k = s.p.chooseNCat(len(ready), "select")
 	}
 	i := ready[k]
 	var z Value
